@@ -544,7 +544,9 @@ def threading(eng: Engine, ctx: Ctx, rid: str, model: DecoderModel):
         f = eng.repo.func(q)
         ctx.touch(func=q)
         se = eng.symeval(q)
-        offp = ("param", "offset") if "offset" in f.params else None
+        # the routines of the cycle take (..., offset, index) as their last two parameters, whatever they are called
+        offn, idxn = (f.params[-2], f.params[-1]) if (q != eng.attributes_driver and len(f.params) >= 3) else (None, None)
+        offp = ("param", offn) if offn else None
         calls = [e for e in se.effects if e.kind == "call" and e.term[2][0] == "attr" and e.term[2][1] == ("self",) and e.term[2][2] in names]
         loc = eng.loc(f, f.node)
         if not calls:
@@ -559,9 +561,10 @@ def threading(eng: Engine, ctx: Ctx, rid: str, model: DecoderModel):
             callee = eng.repo.func(names[e.term[2][2]])
             params = callee.params[1:]
             kw = dict(e.term[4])
-            if "offset" in kw:
-                return kw["offset"]
-            i = params.index("offset") if "offset" in params else None
+            con = callee.params[-2] if len(callee.params) >= 3 else None
+            if con in kw:
+                return kw[con]
+            i = params.index(con) if con in params else None
             return e.term[3][i] if i is not None and i < len(e.term[3]) else None
 
         def valid(t, seen=frozenset()):
@@ -589,7 +592,7 @@ def threading(eng: Engine, ctx: Ctx, rid: str, model: DecoderModel):
 
         # ---- the other arguments: the index stack is threaded like the offset; the dispatcher gets (key, dict) with key drawn from that dict
         idx_results = {("proj", e.term, 1) for e in calls if e.term[2][2] != single}
-        idxp = ("param", "index") if "index" in f.params else None
+        idxp = ("param", idxn) if idxn else None
 
         def valid_idx(t, seen=frozenset()):
             if (idxp is not None and t == idxp) or t in idx_results:
@@ -622,8 +625,9 @@ def threading(eng: Engine, ctx: Ctx, rid: str, model: DecoderModel):
             params = callee.params[1:]
             kw = dict(e.term[4])
             args = {p_: (e.term[3][i] if i < len(e.term[3]) else kw.get(p_)) for i, p_ in enumerate(params)}
-            if "index" in args:
-                a = args["index"]
+            cin = callee.params[-1] if len(callee.params) >= 3 else None
+            if cin in args:
+                a = args[cin]
                 ctx.check(a is not None and valid_idx(a), rid, q, f"index stack passed to {norm(e.node)[:60]}", expected="the current index stack (parameter / previous result / the driver's fresh list)", found=show(a)[:80] if a is not None else "missing", **eng.loc(f, e.node))
             if e.term[2][2] == disp_name and len(params) >= 2:
                 k, d = args.get(params[0]), args.get(params[1])
@@ -771,7 +775,7 @@ def groups(eng: Engine, ctx: Ctx, rid6: str, rid7: str, rid8: str, model: Decode
             base, _, lvl = des.partition("+")
             name = ("const", base)
             for k in range(int(lvl) if lvl else 0):
-                name = ("bin", "+", name, ("fstr", (("const", sep), ("fmt", ("idx", ("param", "index"), ("const", k)), spec, -1))))
+                name = ("bin", "+", name, ("fstr", (("const", sep), ("fmt", ("idx", ("param", g.params[-1]), ("const", k)), spec, -1))))
             want = ("GETATTR", name)
         okc = False
         if cnt is not None:
@@ -789,7 +793,7 @@ def groups(eng: Engine, ctx: Ctx, rid6: str, rid7: str, rid8: str, model: Decode
             bad.setdefault("count", []).append((des, show(cnt)[:90] if cnt else show(it)[:90]))
             continue
         # index discipline
-        idx0 = ("param", "index")
+        idx0 = ("param", g.params[-1])
         pushes = [e for e in se.effects if e.kind == "call" and e.term[2] == ("attr", idx0, "append") and e.term[3] == (("const", 0),) and not e.loops]
         pops = [e for e in se.effects if e.kind == "call" and e.term[2][0] == "attr" and e.term[2][2] == "pop" and not e.term[3] and not e.loops]
         sets = [e for e in se.effects if e.kind == "setitem" and e.loops == (lid,) and e.target[2] == ("const", -1)]
@@ -822,7 +826,16 @@ def groups(eng: Engine, ctx: Ctx, rid6: str, rid7: str, rid8: str, model: Decode
             continue
         # body: inner loop over the group dict calling the dispatcher with (name, dict, offset, index)
         inner = [e for e in se.effects if e.kind == "call" and len(e.loops) == 2 and e.loops[0] == lid and is_self_call(e.term, d.name)]
-        okb = len(inner) == 1 and se.loop_info[inner[0].loops[1]].get("iter") == gd and inner[0].term[3][0] == ("elem", gd, inner[0].loops[1]) and inner[0].term[3][1] == gd
+        def keys_of(it_):
+            # list(d) / tuple(d) / iter(d) / d.keys() enumerate the keys of d in definition order, as iterating d itself does
+            if it_ is not None and it_[0] == "call" and not it_[4] and ((it_[2][0] == "builtin" and it_[2][1] in ("list", "tuple", "iter") and len(it_[3]) == 1) or (it_[2][0] == "attr" and it_[2][2] == "keys" and not it_[3])):
+                return it_[3][0] if it_[2][0] == "builtin" else it_[2][1]
+            return it_
+
+        it_in = se.loop_info[inner[0].loops[1]].get("iter") if len(inner) == 1 else None
+        if it_in is not None and it_in[0] == "call" and it_in[2] == ("builtin", "range") and len(it_in[3]) == 1 and it_in[3][0][0] == "call" and it_in[3][0][2] == ("builtin", "len") and len(it_in[3][0][3]) == 1:
+            it_in = it_in[3][0][3][0]  # by position over a snapshot of the keys: the evaluator reads keys[k] as the element
+        okb = len(inner) == 1 and keys_of(it_in) == gd and inner[0].term[3][0] == ("elem", it_in, inner[0].loops[1]) and inner[0].term[3][1] == gd
         if not okb:
             bad.setdefault("body iteration", []).append((des, ", ".join(show(e.term)[:60] for e in inner) or "no dispatcher call"))
     loc = eng.loc(g, g.node)
@@ -861,12 +874,12 @@ def groups(eng: Engine, ctx: Ctx, rid6: str, rid7: str, rid8: str, model: Decode
                 pres = [present(c, p) for c, p in gds if present(c, p)]
                 found.append(f"{show(leaf)[:50]} under {guard_text(gds)[:40]}")
                 if -1 in pres:  # absent group
-                    okr = okr and leaf == ("tuple", (("param", "offset"), ("param", "index")))
+                    okr = okr and leaf == ("tuple", (("param", o.params[-2]), ("param", o.params[-1])))
                 elif 1 in pres:
-                    okr = okr and leaf[0] == "tuple" and len(leaf[1]) == 2 and leaf[1][0] != ("param", "offset")
+                    okr = okr and leaf[0] == "tuple" and len(leaf[1]) == 2 and leaf[1][0] != ("param", o.params[-2])
                 elif leaf[0] == "tuple" and len(leaf[1]) == 2 and all(x[0] == "ite" for x in leaf[1]):
                     a, bb = leaf[1]
-                    okr = okr and present(a[1], True) == 1 and a[3] == ("param", "offset") and bb[3] == ("param", "index") and a[1] == bb[1]
+                    okr = okr and present(a[1], True) == 1 and a[3] == ("param", o.params[-2]) and bb[3] == ("param", o.params[-1]) and a[1] == bb[1]
                 else:
                     okr = False
         ctx.check(okr, rid7, o.qualname, f"absent group {des!r} consumes nothing", expected="(offset, index) unchanged when the condition fails", found="; ".join(found)[:140] or "-", **eng.loc(o, o.node))
@@ -924,8 +937,11 @@ def harmonic_counts(eng: Engine, ctx: Ctx, rid: str, model: DecoderModel):
     def symn(t):
         if t[0] == "call" and t[2] == ("builtin", "getattr") and len(t[3]) == 2 and t[3][0] == ("self",):
             nm = t[3][1]
+            from .util import strparts as _sp
+
             for key, sym in ((deg, "a"), (order, "b")):
-                if nm == ("fstr", (("const", key + sep), ("fmt", ("idx", model.idxp, ("const", 0)), spec, -1))):
+                want_nm = ("fstr", (("const", key + sep), ("fmt", ("idx", model.idxp, ("const", 0)), spec, -1)))
+                if nm == want_nm or _sp(nm) == _sp(want_nm):  # the same text however it is put together (`key + sfx` with the suffix built once)
                     return sym
         return show(t)
 
@@ -959,6 +975,10 @@ def payload_uses(eng: Engine, ctx: Ctx, rid: str, model: DecoderModel):
                 n += 1
                 inside = f.module == mod and f.cls == cls
                 okf = inside and f.name in fields[node.attr]
+                if not okf and inside and isinstance(node.ctx, ast.Load) and eng.is_inlined_helper(f.qualname):
+                    # a private helper of an allowed user, inlined at its call sites (`_extract_bits` called by the single-field routine only)
+                    callers = {c_.caller.rsplit(".", 1)[-1] for c_ in eng.res.callers_of(f.qualname)}
+                    okf = bool(callers) and callers <= fields[node.attr]
                 if isinstance(node.ctx, ast.Store):
                     okf = inside and f.name == "__init__"
                 ctx.check(okf, rid, f.qualname, norm(eng.repo.enclosing_stmt(node))[:90], expected=f"self.{node.attr} used only in {sorted(fields[node.attr])}", found=f"{'store' if isinstance(node.ctx, ast.Store) else 'load'} in {f.qualname}", **eng.loc(f, node))
